@@ -190,6 +190,9 @@ def run_property(pid, tier="quick", seed=0, only=None, verbose=False):
     bounded_failures = []
     for b in bounded:
         tb = time.time()
+        if not os.path.exists(os.path.join(VERIF, b.script)):
+            undecided.append({"contract": b.id, "reason": f"bounded stand-in {b.script} not present"})
+            continue
         cmd = [VENV_PY, os.path.join(VERIF, b.script), "--tier", tier, "--seed", str(seed)] + b.args
         env = dict(os.environ)
         env["PYTHONPATH"] = extract.REPO + os.pathsep + VERIF
